@@ -335,8 +335,10 @@ class Base(_BaseClass):
         resulttokens = []
         if starttoken:
             resulttokens.append(starttoken)
-            val = starttoken[1]
-            if '[' == val:
+            typ, val = starttoken[0], starttoken[1]
+            if Base._prods.FUNCTION == typ:
+                parant += 1
+            elif '[' == val:
                 bracket += 1
             elif '{' == val:
                 brace += 1
@@ -350,7 +352,13 @@ class Base(_BaseClass):
                     resulttokens.append(token)
                     break
 
-                if '{' == val:
+                # function( or single (
+                if Base._prods.FUNCTION == typ:
+                    parant += 1
+                elif typ in ('IDENT', 'HASH', 'DIMENSION', 'ATKEYWORD'):
+                    # names may hold an escaped bracket, they never delimit anything
+                    pass
+                elif '{' == val:
                     brace += 1
                 elif '}' == val:
                     brace -= 1
@@ -358,8 +366,7 @@ class Base(_BaseClass):
                     bracket += 1
                 elif ']' == val:
                     bracket -= 1
-                # function( or single (
-                elif '(' == val or Base._prods.FUNCTION == typ:
+                elif '(' == val:
                     parant += 1
                 elif ')' == val:
                     parant -= 1
